@@ -177,9 +177,13 @@ class DiameterAssociation(object):
                 self.lock.release()
                 break
 
-            data_stream = self._recv_remainder + copy.copy(self.transport._recv_data_stream)
-            self.transport._recv_data_stream = b""
-            self.transport._recv_data_available.clear()
+            #: The transport thread appends to the stream while this thread 
+            #: takes it: without the lock, bytes appended between the copy 
+            #: and the reset below would be lost.
+            with self.transport._recv_lock:
+                data_stream = self._recv_remainder + copy.copy(self.transport._recv_data_stream)
+                self.transport._recv_data_stream = b""
+                self.transport._recv_data_available.clear()
 
             #: TCP delivers a byte stream, not messages: a read may end in 
             #: the middle of a Diameter message. Only complete messages are 
